@@ -143,13 +143,13 @@ theorem ostrCopy2_append (bits : Bool) (s : OS) (f : Frame) (rest : List Frame) 
 /-! ### phases 0 and 1 -/
 
 section Ostr
-variable (tags allTags : List Tag) (bits : Bool) (tm : Int)
+variable (tags allTags : List Tag) (bits : Bool) (tm : Int) (ex : Nat → Tag → Tag)
 
-theorem ostr_phase0 (hs : tags.length + (if tm == 1 then 1 else 0) ≤ 1) (s : OS) (p ext : Bytes)
+theorem ostr_phase0 (s : OS) (p ext : Bytes)
     (hph : s.ctx.phase = 0) : StepRel (ostrIt tags allTags bits tm) s p ext := by
   obtain ⟨⟨ph, st, lf⟩, ap, buf, un, stk⟩ := s
   simp only at hph; subst hph
-  rcases checkTags_cases tags st tm (-1) p ext hs with ⟨hm, hc0, hst⟩ | ⟨hnm, heq⟩
+  rcases checkTags_cases tags st tm (-1) p ext with ⟨hm, hc0, hst⟩ | ⟨hnm, heq⟩
   · apply stepRel_wait
     unfold ostrIt
     simp only [hm, hc0, hst]
@@ -168,18 +168,18 @@ theorem ostr_phase0 (hs : tags.length + (if tm == 1 then 1 else 0) ≤ 1) (s : O
 def ostrFetchPart (s : OS) (q : Bytes) : Out OS :=
   match ostrFetch s.selLeft q with
   | .ret rc => .ret s rc 0
-  | .ok t _ => ostrTlv allTags s t
+  | .ok t _ => ostrTlv ex s t
 
-theorem ostrTlv_not_more (s : OS) (t : TL) (s' : OS) (n : Nat) : ostrTlv allTags s t ≠ .ret s' .more n := by
+theorem ostrTlv_not_more (s : OS) (t : TL) (s' : OS) (n : Nat) : ostrTlv ex s t ≠ .ret s' .more n := by
   unfold ostrTlv
   simp only
   repeat' split
   all_goals (intro hh; cases hh)
 
 theorem ostrFetchPart_rel (s : OS) (p ext : Bytes) :
-    ostrFetchPart allTags s p = .ret s .more 0 ∨
-    ((∀ s' n, ostrFetchPart allTags s p ≠ .ret s' .more n) ∧
-      ostrFetchPart allTags s (p ++ ext) = ostrFetchPart allTags s p) := by
+    ostrFetchPart ex s p = .ret s .more 0 ∨
+    ((∀ s' n, ostrFetchPart ex s p ≠ .ret s' .more n) ∧
+      ostrFetchPart ex s (p ++ ext) = ostrFetchPart ex s p) := by
   cases hf : ostrFetch s.selLeft p with
   | ret rc =>
     by_cases hm : rc = .more
@@ -193,12 +193,12 @@ theorem ostrFetchPart_rel (s : OS) (p ext : Bytes) :
     right
     have hx := ostrFetch_ext s.selLeft p ext (by rw [hf]; intro hh; cases hh)
     constructor
-    · intro s' k; unfold ostrFetchPart; simp only [hf]; exact ostrTlv_not_more allTags s t s' k
+    · intro s' k; unfold ostrFetchPart; simp only [hf]; exact ostrTlv_not_more ex s t s' k
     · unfold ostrFetchPart; simp only [hx]
 
 theorem ostr_phase1_shape (s : OS) (hph : s.ctx.phase = 1) :
     (∃ o, (∀ q, ostrIt tags allTags bits tm s q = o) ∧ ∀ s' n, o ≠ .ret s' .more n) ∨
-    (∀ q, ostrIt tags allTags bits tm s q = ostrFetchPart allTags s q) := by
+    (∀ q, ostrIt tags allTags bits tm s q = ostrFetchPart (ostrEx tags allTags bits tm) s q) := by
   obtain ⟨⟨ph, st, lf⟩, ap, buf, un, stk⟩ := s
   simp only at hph; subst hph
   match stk with
@@ -224,7 +224,7 @@ theorem ostr_phase1 (s : OS) (p ext : Bytes) (hph : s.ctx.phase = 1) :
   · apply stepRel_same
     · intro s' n; rw [ho]; exact hnm s' n
     · rw [ho, ho]
-  · rcases ostrFetchPart_rel allTags s p ext with h | ⟨h1, h2⟩
+  · rcases ostrFetchPart_rel (ostrEx tags allTags bits tm) s p ext with h | ⟨h1, h2⟩
     · apply stepRel_wait; rw [hf, h]
     · apply stepRel_same
       · intro s' n; rw [hf]; exact h1 s' n
@@ -357,10 +357,10 @@ theorem ostr_phase3 (s : OS) (p ext : Bytes) (hph : s.ctx.phase = 3) :
         congr 2
         omega
 
-theorem ostr_rel (hs : tags.length + (if tm == 1 then 1 else 0) ≤ 1) (s : OS) (p ext : Bytes) :
+theorem ostr_rel (s : OS) (p ext : Bytes) :
     StepRel (ostrIt tags allTags bits tm) s p ext := by
   by_cases h0 : s.ctx.phase = 0
-  · exact ostr_phase0 tags allTags bits tm hs s p ext h0
+  · exact ostr_phase0 tags allTags bits tm s p ext h0
   by_cases h1 : s.ctx.phase = 1
   · exact ostr_phase1 tags allTags bits tm s p ext h1
   by_cases h2 : s.ctx.phase = 2
@@ -389,7 +389,7 @@ theorem ostrLoopEnd_shape (s : OS) (c : Bool) (hph : s.ctx.phase = 1) :
     · exact ⟨rfl, by simp only [hph]; decide⟩
 
 theorem ostrTlv_cont (s : OS) (t : TL) (s' : OS) (n : Nat) (hph : s.ctx.phase = 1)
-    (h : ostrTlv allTags s t = .cont s' n) :
+    (h : ostrTlv ex s t = .cont s' n) :
     s'.stack.length ≤ s.stack.length + 1 ∧ ostrRank s'.ctx.phase ≤ 3 ∧ (n = 2 ∨ n = t.tl + t.ll) := by
   unfold ostrTlv at h
   simp only at h
@@ -403,14 +403,14 @@ theorem ostrTlv_cont (s : OS) (t : TL) (s' : OS) (n : Nat) (hph : s.ctx.phase = 
        · first | exact Or.inl rfl | exact Or.inr rfl)
 
 theorem ostrFetchPart_cont (s : OS) (p : Bytes) (s' : OS) (n : Nat) (hph : s.ctx.phase = 1)
-    (h : ostrFetchPart allTags s p = .cont s' n) :
+    (h : ostrFetchPart ex s p = .cont s' n) :
     2 ≤ n ∧ n ≤ p.length ∧ s'.stack.length ≤ s.stack.length + 1 ∧ ostrRank s'.ctx.phase ≤ 3 := by
   unfold ostrFetchPart at h
   split at h
   · cases h
   · rename_i t k hfe
     have hfl := ostrFetch_le _ _ _ _ hfe
-    obtain ⟨a1, a2, a3⟩ := ostrTlv_cont allTags s t s' n hph h
+    obtain ⟨a1, a2, a3⟩ := ostrTlv_cont ex s t s' n hph h
     refine ⟨?_, ?_, a1, a2⟩
     · rcases a3 with a3 | a3 <;> omega
     · rcases a3 with a3 | a3 <;> omega
@@ -419,8 +419,8 @@ theorem ostr_p1_cont (s : OS) (p : Bytes) (s' : OS) (n : Nat) (hph : s.ctx.phase
     (h : ostrIt tags allTags bits tm s p = .cont s' n) :
     (n = 0 ∧ 2 * s'.stack.length + ostrRank s'.ctx.phase < 2 * s.stack.length + 2) ∨
     (2 ≤ n ∧ n ≤ p.length ∧ s'.stack.length ≤ s.stack.length + 1 ∧ ostrRank s'.ctx.phase ≤ 3) := by
-  by_cases hf : ostrIt tags allTags bits tm s p = ostrFetchPart allTags s p
-  · right; rw [hf] at h; exact ostrFetchPart_cont allTags s p s' n hph h
+  by_cases hf : ostrIt tags allTags bits tm s p = ostrFetchPart (ostrEx tags allTags bits tm) s p
+  · right; rw [hf] at h; exact ostrFetchPart_cont (ostrEx tags allTags bits tm) s p s' n hph h
   · left
     obtain ⟨⟨ph, st, lf⟩, ap, buf, un, stk⟩ := s
     simp only at hph; subst hph
@@ -505,15 +505,15 @@ theorem ostr_decr (s : OS) (p : Bytes) (s' : OS) (n : Nat) (h : ostrIt tags allT
     repeat' split at h
     all_goals cases h
 
-theorem ostr_itLaws (hs : tags.length + (if tm == 1 then 1 else 0) ≤ 1) :
+theorem ostr_itLaws :
     ItLaws (ostrIt tags allTags bits tm) ostrMu :=
-  itLaws_mk _ _ (ostrIt_bound tags allTags bits tm) (ostr_decr tags allTags bits tm) (ostr_rel tags allTags bits tm hs)
+  itLaws_mk _ _ (ostrIt_bound tags allTags bits tm) (ostr_decr tags allTags bits tm) (ostr_rel tags allTags bits tm)
 
 /-- OCTET STRING / BIT STRING (primitive or constructed encoding, any nesting) with a single-tag chain is a
     lawful restartable decoder -/
-theorem ostrDec_lawfulRc (hs : tags.length + (if tm == 1 then 1 else 0) ≤ 1) :
+theorem ostrDec_lawfulRc :
     LawfulRc (⟨ostrDec tags allTags bits tm⟩ : Dec Node) := by
-  have h := lawfulRc_wrap _ (lawfulRc_of_itLaws _ _ (ostr_itLaws tags allTags bits tm hs))
+  have h := lawfulRc_wrap _ (lawfulRc_of_itLaws _ _ (ostr_itLaws tags allTags bits tm))
     OS.ofNode OS.toNode (fun _ => rfl)
   have e : (⟨ostrDec tags allTags bits tm⟩ : Dec Node) =
       ⟨fun n p => (OS.toNode ((itDec (ostrIt tags allTags bits tm) ostrMu).step (OS.ofNode n) p).1,
